@@ -342,7 +342,7 @@ func (h *Harness) idxTie(p *pending) {
 			}
 		}
 		r.Eval("idx-tie/"+w.Shape, "")
-		cs := Case{Workload: w.Name, Hit: ht.N, Mode: "client", Point: freePoint(w, ht, ""), PIdx: ht.Idx}
+		cs := Case{Workload: w.Name} // the replay runs the whole workload: the tie compares consecutive captures
 		if bad != "" {
 			r.TieFail("model-index:"+w.Shape, fmt.Sprintf("workload %s, directory captured at %s#%d (point %d): blockchain.new is not the previous capture's index plus appended records and flag bits: %s", w.Name, ht.Name, ht.Idx, ht.N, bad),
 				map[string]interface{}{"case": cs, "ops": w.Ops})
